@@ -66,6 +66,10 @@ def parts(ck):
         add(R, ["--family=lines", "--port=" + port, "--kstep=%d" % (64 if q else 8)], "lines-%s" % port, 4, 120 if q else 600)
     # (d) sub-negotiations
     add(R, ["--family=sb"], "sb", 50, 120)
+    import os
+    only = os.environ.get("VERIF_PARTS")      # development aid: run a subset of the parts (the delivered tiers run all of them)
+    if only:
+        P = [p for p in P if (p[2] if len(p) == 5 else p[3]) in only.split(",")]
     return P
 
 
